@@ -1579,6 +1579,168 @@ func upLongHistory(c *upCase) Verdict {
 	return pass()
 }
 
+// ---------------------------------------------------------------- faults of the index
+//
+// The model's fault may strike at any step, including the steps that write the index: a flush
+// in the middle of the upload and the last flush at commit.  The file store cannot make those
+// fail; two things can.  (1) Content: a configuration key that is also a key derived from the
+// benchmark name of a result under it (goos: linux + BenchmarkX/goos=linux; name:, sub1:,
+// gomaxprocs:) gives the record two label rows with one primary key, which the database
+// notices only when the queued rows are sent.  (2) The database itself: a trigger installed
+// through a second connection makes the INSERT of a chosen record's label rows, or of the
+// record row itself, fail ("a storage write ... error at any point").  Case tag "indexfault":
+// an upload of c.Files files x c.Recs records with distinct labels whose record number K of
+// the last file is the poisoned one, for EVERY K in 1..c.Recs (so the failing statement is a
+// mid-upload flush for early K and the flush of Upload.Commit for late K, whatever the batch
+// size is), after an earlier successful upload and followed by a later one.  Judgement, the
+// statement's either-or: HTTP 200 = every record of the upload is queryable and listed;
+// anything else = no record of it is returned by the whole-store query or the listings.
+// Either way the earlier upload is untouched and the later upload succeeds completely.
+
+var upIndexFaultKinds = []string{"config-key-equals-name-key", "config-key-name", "config-key-sub1", "config-key-gomaxprocs",
+	"label-insert-fails", "record-insert-fails"}
+
+func upIndexFaultBody(files, recs, k int, kind string, salt int) *upBody {
+	var buf bytes.Buffer
+	mw := multipart.NewWriter(&buf)
+	mw.SetBoundary(fmt.Sprintf("verifboundary%dx", salt))
+	b := &upBody{ctype: mw.FormDataContentType()}
+	for f := 1; f <= files; f++ {
+		w, _ := mw.CreateFormFile("file", fmt.Sprintf("f%d.txt", f))
+		fmt.Fprintf(w, "goos: linux\nkey%d: v%d\n", f, salt)
+		for j := 1; j <= recs; j++ {
+			name := fmt.Sprintf("F%dR%d", f, j)
+			rec := fmt.Sprintf("r%d", j)
+			if f == files && j == k {
+				switch kind {
+				case "config-key-equals-name-key":
+					name += "/goos=linux"
+				case "config-key-name":
+					fmt.Fprintf(w, "name: x\n")
+				case "config-key-sub1":
+					fmt.Fprintf(w, "sub1: x\n")
+					name += "/part"
+				case "config-key-gomaxprocs":
+					fmt.Fprintf(w, "gomaxprocs: 4\n")
+					name += "-8"
+				case "label-insert-fails":
+					rec = "verifpoison"
+				case "record-insert-fails":
+					name = "VerifPoison" + name
+				}
+			}
+			fmt.Fprintf(w, "rec: %s\n", rec)
+			fmt.Fprintf(w, "Benchmark%s 1 %d ns/op\n", name, 10*f+j)
+		}
+	}
+	mw.Close()
+	b.data = buf.Bytes()
+	return b
+}
+
+func upIndexFault(c *upCase) Verdict {
+	kind := c.Kind
+	for k := 1; k <= c.Recs; k++ {
+		files := 1 + (k+c.ID)%2
+		if c.Files > 0 {
+			files = c.Files
+		}
+		a, err := upNewApp(false, false)
+		if err != nil {
+			return fail("harness", "%v", err)
+		}
+		v := func() Verdict {
+			defer a.close()
+			switch kind {
+			case "label-insert-fails", "record-insert-fails":
+				side, err := sql.Open("sqlite3", a.dsn)
+				if err != nil {
+					return fail("harness", "%v", err)
+				}
+				defer side.Close()
+				trg := "CREATE TRIGGER veriffault BEFORE INSERT ON RecordLabels WHEN NEW.Value = 'verifpoison' BEGIN SELECT RAISE(ABORT, 'injected index fault'); END"
+				if kind == "record-insert-fails" {
+					trg = "CREATE TRIGGER veriffault BEFORE INSERT ON Records WHEN instr(CAST(NEW.Content AS TEXT), 'VerifPoison') > 0 BEGIN SELECT RAISE(ABORT, 'injected index fault'); END"
+				}
+				if _, err := side.Exec(trg); err != nil {
+					return fail("harness", "installing the fault trigger: %v", err)
+				}
+			}
+			early := upBuildBody(1, 2, 0, 0, 991+c.ID)
+			if code, resp := a.post(early.ctype, bytes.NewReader(early.data)); code != 200 {
+				return fail("harness", "earlier upload failed: %d %s", code, resp)
+			}
+			before, err := a.records()
+			if err != nil {
+				return fail("harness", "%v", err)
+			}
+			b := upIndexFaultBody(files, c.Recs, k, kind, 7000+c.ID)
+			code, resp := a.post(b.ctype, bytes.NewReader(b.data))
+			what := fmt.Sprintf("upload of %d file(s) x %d records, record %d of the last file %s", files, c.Recs, k, kind)
+			after, err := a.records()
+			listed, err2 := a.listed()
+			if err != nil || err2 != nil {
+				return fail("query-fails-after-index-fault", "%s (HTTP %d): Query(\"\"): %v, ListUploads: %v", what, code, err, err2)
+			}
+			for _, r := range before {
+				found := false
+				for _, x := range after {
+					if x == r {
+						found = true
+					}
+				}
+				if !found {
+					return fail("earlier-upload-damaged-by-index-fault", "%s (HTTP %d): record %s of the earlier upload is gone", what, code, r)
+				}
+			}
+			total := files * c.Recs
+			nlisted := 1
+			if code == 200 {
+				if len(after) != len(before)+total {
+					return fail("index-fault-upload-accepted-incomplete", "%s: HTTP 200 %q, but %d of its %d records can be queried", what, strings.TrimSpace(resp), len(after)-len(before), total)
+				}
+				nlisted = 2
+			} else if len(after) != len(before) {
+				return fail("partial-upload-visible-after-index-fault", "%s: HTTP %d %q, yet %d of its records are returned by Query(\"\") and %d uploads are listed", what, code, strings.TrimSpace(resp), len(after)-len(before), len(listed))
+			}
+			if len(listed) != nlisted {
+				return fail("failed-upload-listed-after-index-fault", "%s: HTTP %d, %d uploads listed, want %d: %v", what, code, len(listed), nlisted, listed)
+			}
+			for _, lim := range []int{1, 2, 3} {
+				ul := a.db.ListUploads("", nil, lim)
+				n, cnt := 0, 0
+				for ul.Next() {
+					n++
+					cnt += ul.Info().Count
+				}
+				lerr := ul.Err()
+				ul.Close()
+				w := nlisted
+				if lim < w {
+					w = lim
+				}
+				if lerr != nil || n != w {
+					return fail("listing-wrong-after-index-fault", "%s: HTTP %d, ListUploads(\"\", limit %d) gives %d uploads (%d records, err %v), want %d", what, code, lim, n, cnt, lerr, w)
+				}
+			}
+			late := upBuildBody(2, 3, 0, 0, 993+c.ID)
+			code2, resp2 := a.post(late.ctype, bytes.NewReader(late.data))
+			if code2 != 200 {
+				return fail("upload-fails-after-index-fault", "%s (HTTP %d): the next ordinary upload fails: HTTP %d %q", what, code, code2, strings.TrimSpace(resp2))
+			}
+			final, err := a.records()
+			if err != nil || len(final) != len(after)+6 {
+				return fail("later-upload-incomplete-after-index-fault", "%s (HTTP %d): after the next upload of 6 records %d records can be queried, want %d (%v)", what, code, len(final), len(after)+6, err)
+			}
+			return pass()
+		}()
+		if !v.OK {
+			return v
+		}
+	}
+	return pass()
+}
+
 func famUpload(mode string, args []string) error {
 	if mode == "inflight" {
 		return upInflight(args)
@@ -1611,6 +1773,8 @@ func famUpload(mode string, args []string) error {
 			return upBig(&c)
 		case "history":
 			return upLongHistory(&c)
+		case "indexfault":
+			return upIndexFault(&c)
 		case "ids":
 			evs, v := upReplayIDs(&c)
 			if evOut != nil {
